@@ -15,12 +15,20 @@ COMPARE_RS = 'crates/erg_compiler/context/compare.rs'
 TYPARAM_RS = 'crates/erg_compiler/ty/typaram.rs'
 CTX_MOD = 'crates/erg_compiler/context/mod.rs'
 
+# every predicate of TyParamOrdering, specified on the exact orderings try_cmp returns for constants
 ORD_SPECS = {
     'canbe_eq': "ensures ord_exact(self) ==> res == (self is Equal),",
+    'canbe_lt': "ensures ord_exact(self) ==> res == (self is Less),",
+    'canbe_gt': "ensures ord_exact(self) ==> res == (self is Greater),",
     'canbe_le': "ensures ord_exact(self) ==> res == (self is Less || self is Equal),",
     'canbe_ge': "ensures ord_exact(self) ==> res == (self is Greater || self is Equal),",
+    'canbe_ne': "",  # (matches NotEqual | Any only: no meaningful reading on exact orderings; extracted without a contract)
     'is_lt': "ensures ord_exact(*self) ==> res == (*self is Less),",
+    'is_le': "ensures ord_exact(*self) ==> res == (*self is Less || *self is Equal),",
     'is_gt': "ensures ord_exact(*self) ==> res == (*self is Greater),",
+    'is_ge': "ensures ord_exact(*self) ==> res == (*self is Greater || *self is Equal),",
+    'is_eq': "ensures ord_exact(*self) ==> res == (*self is Equal),",
+    'is_ne': "ensures ord_exact(*self) ==> res == (*self is Less || *self is Greater),",
 }
 
 
